@@ -336,10 +336,13 @@ pub fn gen_case(rg: &mut Rg, rule: &str) -> Case {
         "unsupported-prop-literal" => {
             let lits = ["1.5", "'c'", "b'x'", "b\"bytes\"", "-2.5", "1e3", "c\"cstr\"", "1.0f32"];
             let l = *rg.pick(&lits);
-            let grp = match rg.below(3) {
+            let grp = match rg.below(5) {
                 0 => format!("#[strum(props(k = {}))]", l),
                 1 => format!("#[strum(props(a = \"s\", k = {}, z = 1))]", l),
-                _ => format!("#[strum(props(a = true))] #[strum(props(k = {}))]", l),
+                2 => format!("#[strum(props(a = true))] #[strum(props(k = {}))]", l),
+                // the key was already declared with a supported literal: the second declaration is still unsupported
+                3 => format!("#[strum(props(k = 11))] #[strum(props(k = {}))]", l),
+                _ => format!("#[strum(props(k = \"v\", k = {}))]", l),
             };
             let kind = *rg.pick(&["", "(u8)", " { x: u8 }"]);
             let (s, p) = assemble(rg, &[], "", &[format!("{} Bad{}", grp, kind)], false);
